@@ -63,8 +63,13 @@ IsAddressZero(T, n) ==
     /\ LET as == SlotCh(T, n, "args") IN
        Len(as) = 1 /\ K(T, as[1]) = "E.NumberLiteral" /\ A(T, as[1]).value = "0" /\ A(T, as[1]).exp = ""
 AddrZeroMust(T) == {n \in OfKind(T, EqNe) : IsAddressZero(T, Kid(T, n, "l")) \/ IsAddressZero(T, Kid(T, n, "r"))}
+\* address(<literal>) with a literal that is clearly not zero (address(1), address(0xdEaD), a 20-byte constant)
+IsNonZeroLiteral(T, m) == \/ K(T, m) = "E.NumberLiteral" /\ ~(A(T, m).num.fits /\ A(T, m).num.value = 0)
+                          \/ K(T, m) = "E.HexNumberLiteral" /\ ~A(T, m).zero
+IsAddressConv(T, m) == K(T, m) = "E.FunctionCall" /\ IsElemType(T, Kid(T, m, "callee"), {"address", "payable", "address payable"})
+ClearlyNonZeroAddress(T, m) == IsAddressConv(T, m) /\ LET as == SlotCh(T, m, "args") IN Len(as) = 1 /\ IsNonZeroLiteral(T, as[1])
 AddrZeroMay(T)  == {n \in OfKind(T, EqNe) :
-                      \E m \in Under(T, n) : K(T, m) = "E.FunctionCall" /\ IsElemType(T, Kid(T, m, "callee"), {"address", "payable", "address payable"})}
+                      \E m \in Under(T, n) : IsAddressConv(T, m) /\ ~ClearlyNonZeroAddress(T, m)}
 
 \* bool_equals_bool
 BoolEqMust(T) == {n \in OfKind(T, EqNe) : K(T, Kid(T, n, "l")) = "E.BoolLiteral" \/ K(T, Kid(T, n, "r")) = "E.BoolLiteral"}
